@@ -92,6 +92,8 @@ PATHS = [
     ("destr-for-member-sets", "def acc = []; for [p, q] in values <*a = {S}, b = {S2} *> do append(acc, [p, q]) end; acc"),
     ("direct-join-map", "join({M}, '|')"), ("direct-first-last-map", "[first({M}), last({M})]"), ("render-list-of-map", "string(list({M}))"),
     ("direct-reverse-map", "string(reverse({M}))"), ("direct-enumerate-map", "string(enumerate({M}))"), ("direct-unique-map", "string(unique({M}))"),
+    ("hidden-members", "[x->_h for x in {S}]"), ("hidden-members-for", "def acc = []; for x in {S} do append(acc, x->_h) end; acc"),
+    ("hidden-members-list", "[x->_h for x in list({S})]"), ("hidden-members-sorted", "[x->_h for x in sorted({S})]"),
     ("type-checks", "[x is string for x in {S}]"), ("contains", "[contains({S}, 'a'), 'a' in {M}]"), ("if-empty", "[{S} is empty, {M} is not empty]"),
 ]
 
@@ -113,10 +115,16 @@ NUMBOOL_ELEMS = ["TRUE", "1", "FALSE", "0", "2", "-1", "3"]
 STRPAT_ELEMS = ["'ab'", "//ab//", "'1'", "'TRUE'", "//1//", "//TRUE//", "'a'", "//z//"]
 PUN_PAIRS = {"pun-numbool": [("TRUE", "1"), ("FALSE", "0")], "pun-strpat": [("'ab'", "//ab//"), ("'1'", "//1//"), ("'TRUE'", "//TRUE//")],
              "pun-mixed": [("TRUE", "1"), ("FALSE", "0"), ("'ab'", "//ab//"), ("[1]", "[TRUE]"), ("'1'", "//1//")]}
-POOLS = {"str": STR_ELEMS, "mix": MIX_ELEMS, "dec": DEC_ELEMS, "set": SET_ELEMS, "list": LIST_ELEMS,
+# objects whose text is the same (hidden members differ): still a definite enumeration order
+OBJ_ELEMS = ["<*a = 1, _h = 'p'*>", "<*a = 1, _h = 'q'*>", "<*a = 1, _h = 'r'*>", "<*a = 1, _h = 1*>", "<*a = 1, _h = 2*>", "<*a = 2, _h = 'p'*>", "<*a = 1*>",
+             "<*a = 1, _h = 'p', _g = 'zz'*>", "<*_h = 'only hidden'*>", "<*_h = 'other hidden'*>", "<*a = 1, _h = [1]*>", "<*a = 1, _h = [1.0, 2]*>"]
+# kinds mixed so that the order within a kind (numeric, chronological, element-wise) and an order of texts disagree
+CYCLIC_ELEMS = ["7", "3", "10", "-4", "2.5", "1000000000000000000000000000000.0", "18446744073709551617", "date('21000710165726')", "date('99991209211510')",
+                "date('20200101')", "'2'", "'10'", "'20200101000000'", "//5//", "TRUE", "FALSE", "NULL", "[3]", "[10]", "['2']", "<<3>>", "<<<3 => 1>>>"]
+POOLS = {"mixed-kinds": CYCLIC_ELEMS, "objs": OBJ_ELEMS, "str": STR_ELEMS, "mix": MIX_ELEMS, "dec": DEC_ELEMS, "set": SET_ELEMS, "list": LIST_ELEMS,
          "pun-numbool": NUMBOOL_ELEMS, "pun-strpat": STRPAT_ELEMS, "pun-mixed": PUN_ELEMS}
 # every kind of pool is used in turn (string-like ones first: those are the ones a hash seed can reorder)
-KIND_CYCLE = ["pun-strpat", "str", "set", "pun-mixed", "list", "pun-numbool", "mix", "dec"]
+KIND_CYCLE = ["pun-strpat", "str", "objs", "mixed-kinds", "set", "pun-mixed", "list", "pun-numbool", "mix", "dec"]
 
 
 NUMEQ_VALS = ["1", "1.0", "2", "2.0", "0", "0.0", "[1]", "[1.0]", "[[2]]", "[[2.0]]"]
@@ -223,6 +231,36 @@ def batch(seed, rounds):
     return progs
 
 
+def check_total_order(ctx, R, elems, label):
+    """"sorted order" exists only if the language's < is a strict total order on the very elements"""
+    S = "[" + ", ".join(elems) + "]"
+    o = observe(lambda: R.it.interpret("def l_ = %s; [[[x < y, x == y] for y in l_] for x in l_]" % S, "c12", R.Env()), 3000000)
+    if o.kind != "value":
+        ctx.count("order_relation_not_evaluable")
+        return
+    ctx.count("order_relation_checks")
+    m = [[(bool(p.value[0].value), bool(p.value[1].value)) for p in row.value] for row in o.value.value]
+    n_ = len(elems)
+    if len(m) != n_:
+        ctx.count("order_relation_not_evaluable")
+        return
+    bad = None
+    for i_ in range(n_):
+        for j_ in range(n_):
+            lt, eq = m[i_][j_]
+            if lt and (eq or m[j_][i_][0]):
+                bad = "%s < %s together with %s" % (elems[i_], elems[j_], "==" if eq else "the reverse")
+            if i_ != j_ and not eq and not lt and not m[j_][i_][0]:
+                bad = "%s and %s are neither equal nor ordered" % (elems[i_], elems[j_])
+            if lt:
+                for k_ in range(n_):
+                    if m[j_][k_][0] and not m[i_][k_][0]:
+                        bad = "%s < %s < %s but not %s < %s" % (elems[i_], elems[j_], elems[k_], elems[i_], elems[k_])
+    ctx.count("order_relation_triples", n_ ** 3)
+    if bad:
+        ctx.violation("C12:no-sorted-order:%s" % label, "the elements of %s have no sorted order: %s" % (S[:300], bad), {"src": S})
+
+
 def run_shard(spec, ctx):
     kind = spec["kind"]
     r = ctx.rng
@@ -268,6 +306,9 @@ def run_shard(spec, ctx):
         ctx.count("shuffled_dict_iterations", shuffle.STATS["dict_iters"])
     elif kind == "agree":
         R = Runner()
+        for label, pool in sorted(POOLS.items()):
+            # (objects of equal content but different member order are equal and yet differ in text: left out here)
+            check_total_order(ctx, R, [e for e in pool], "whole-pool:" + label)
         for i in range(spec["rounds"]):
             col = gen_collections(r, ctx.shard * spec["rounds"] + i)
             S = "<< " + ", ".join(col["a"]) + " >>"
@@ -275,6 +316,7 @@ def run_shard(spec, ctx):
             base = R.run("list(%s)" % S)
             two = R.run("sublist(list(%s), 0, 2)" % S)
             ctx.count("agree_collections")
+            check_total_order(ctx, R, col["a"], KIND_CYCLE[(ctx.shard * spec["rounds"] + i) % len(KIND_CYCLE)])
             for group, want, forms in (("set", base, AGREE_SET), ("set-prefix", two, AGREE_SET_PREFIX)):
                 if want[0] != "value":
                     continue
@@ -332,7 +374,7 @@ def finalize(merged, tier):
                 viol.append(("C12:hash-seed:" + name,
                              "%s gives different output under PYTHONHASHSEED=%s and =%s" % (src[:600], hs[0][1]["hashseed"], ex["hashseed"]),
                              {"src": src}))
-    for k in ("hashseed_runs", "shuffle_runs", "permutation_runs", "shuffled_set_iterations", "shuffled_dict_iterations", "agree_runs"):
+    for k in ("hashseed_runs", "shuffle_runs", "permutation_runs", "shuffled_set_iterations", "shuffled_dict_iterations", "agree_runs", "order_relation_checks"):
         if c.get(k, 0) == 0:
             reasons.append("monitor counter %s is zero" % k)
     if c.get("harness_syntax_errors", 0):
